@@ -54,12 +54,26 @@ print("5 integer/length arithmetic, 6 de-duplication, 7 concurrency/global state
 print("ideas to avoid; every quick check was run against each round-3 change (`notes/matrix-round3.tsv`).\n")
 print("| id | breaks | change | needs, to manifest | when it arrived | now caught by |\n|---|---|---|---|---|---|")
 first_miss = {'C01-b', 'C02-b', 'C06-a', 'C06-b', 'C10-b', 'C14-a', 'C14-b', 'C18-a', 'C19-b'}
+silent = []
 for d in sorted(glob.glob(os.path.join(root, 'seeded', '*', 'meta.json'))):
     m = json.load(open(d))
     k = m['id']
+    if m.get('silent'):
+        silent.append(m)
+        continue
     fr = m.get('first_round') or ('missed by %s (caught by another check or after strengthening, see 12.2)' % m['breaks_property'] if k in first_miss else 'caught')
     caught = m['caught_by']
     got = matrix.get(k)
     if got:
         caught = ', '.join(x for x, v in sorted(got.items()) if v == 'CAUGHT')
     print("| %s | %s | %s | %s | %s | %s |" % (k, m['breaks_property'], m['what'], m['needs_to_manifest'], fr, caught))
+
+print("\nRound 4 (ids B<n>-<a|b|c>): the sub-agents were asked for what a black-box framework driven by generated inputs")
+print("would plausibly miss - state that builds up, conjunctions of several specific conditions, interactions between objects.\n")
+print("### 13.3 Property-preserving changes by independent sub-agents (`seeded/S<n>-<a..d>/`): must stay silent\n")
+print("Realistic changes that keep all 19 properties to the letter but alter observable behaviour, written as bait for")
+print("over-strict checks (each with a `show_test.go` that demonstrates the behavioural difference). All 19 quick checks")
+print("are run against each; all must exit 0.\n")
+print("| id | change | outcome |\n|---|---|---|")
+for m in silent:
+    print("| %s | %s | %s |" % (m['id'], m['what'], m['first_round']))
